@@ -30,19 +30,17 @@ PLAN = {
 
 ALL_EXPR = PLAN["C05"]["units"][0][1] + PLAN["C07"]["units"][0][1]
 PLAN.update({
-    "C06": {"units": [], "native": "c06",
-            "bounded_fns": ["payable_function_optimization", "private_constant_optimization", "private_vars_leading_underscore",
-                            "private_func_leading_underscore", "constructor_order_qa"]},
+    "C06": {"units": [("det_decl", None)], "native": "c06", "bounded_fns": []},
     "C08": {"units": [], "native": "c08",
             "bounded_fns": ["constant_variable_optimization", "immutable_variables_optimization", "memory_to_calldata_optimization",
                             "sstore_optimization", "get_32_byte_storage_variables"]},
     "C09": {"units": [], "native": "c09",
             "bounded_fns": ["safe_math_optimization", "string_error_optimization", "short_revert_string_optimization",
                             "get_solidity_version_from_source_unit (regex)"]},
-    "C04": {"units": [(E, ALL_EXPR), ("slots", None)], "walker": True, "native": "c04", "native_profiles": ["release", "nochecks"],
+    "C04": {"units": [(E, ALL_EXPR), ("slots", None), ("det_decl", None)], "walker": True, "native": "c04", "native_profiles": ["release", "nochecks"],
             "bounded_fns": ["every detector not listed under functions_under_contract (all 30 detectors are run on the totality corpus)"]},
-    "C19": {"units": [(E, ALL_EXPR)], "native": "c19",
-            "bounded_fns": ["detectors outside unit det_expr (whole file vs. all-but-one-item-blanked, bounded)"]},
+    "C19": {"units": [(E, ALL_EXPR), ("det_decl", None)], "native": "c19",
+            "bounded_fns": ["detectors outside units det_expr / det_decl (whole file vs. all-but-one-item-blanked, bounded)"]},
 })
 
 DET_TRUST = [
